@@ -17,6 +17,12 @@ def generate(g, i):
         if k.startswith(("text_", "border_", "cell_")):
             del body[k]
     body.update(g.table_attrs(nrows, ncol, 0.55))
+    # row-level attributes (taken from the first displayed column) in matrix shape, often
+    import gen as _gen
+    if r.random() < 0.5:
+        body["cell_height"] = _gen.shape_value(r, nrows, ncol, lambda: r.choice([0.15, 0.2, 0.25, 0.5]), scalar_ok=False)
+    if r.random() < 0.5:
+        body["cell_justification"] = _gen.shape_value(r, nrows, ncol, lambda: r.choice(["l", "c", "r"]), scalar_ok=False)
     spec["page"]["nrow"] = r.choice([2, 3, 5, 9, 60])
     return spec
 
